@@ -49,9 +49,11 @@ type Config struct {
 	Hostile       bool   `json:"hostile,omitempty"`         // some plugin answers with hostile shapes
 	HostileSrc    bool   `json:"hostile_src,omitempty"`     // ... including sources (positions ambiguous)
 	// Healthy: no injected faults, every outcome tolerated: exact drain / liveness oracles apply.
-	Healthy      bool `json:"healthy,omitempty"`
-	GatePermille int  `json:"gate_permille,omitempty"` // chance (per mille) that a channel/mutex operation of the engine parks at a gate
-	MaxGates     int  `json:"max_gates,omitempty"`     // gate parks per run
+	Healthy           bool  `json:"healthy,omitempty"`
+	GatePermille      int   `json:"gate_permille,omitempty"`       // chance (per mille) that a channel/mutex operation of the engine parks at a gate
+	MaxGates          int   `json:"max_gates,omitempty"`           // gate parks per run
+	GateBoost         []int `json:"gate_boost,omitempty"`          // site classes (site id mod 16) with a boosted chance
+	GateBoostPermille int   `json:"gate_boost_permille,omitempty"` // that chance
 }
 
 type SrcCfg struct {
@@ -148,6 +150,14 @@ func GenConfig(seed int64, family string) *Config {
 	// gates (drawn last: everything above is unchanged by them)
 	c.GatePermille = pick(r, 0, 0, 0, 0, 2, 10, 40)
 	c.MaxGates = pick(r, 3, 10, 40, 200)
+	// favoured sites: a run that uses gates boosts a few site classes (site id mod 16) to a high
+	// probability, so that the two or three preemptions one window needs can coincide
+	if c.GatePermille > 0 && r.IntN(2) == 0 {
+		for i, n := 0, 1+r.IntN(3); i < n; i++ {
+			c.GateBoost = append(c.GateBoost, r.IntN(16))
+		}
+		c.GateBoostPermille = pick(r, 200, 500, 800)
+	}
 	return c
 }
 
